@@ -11,7 +11,7 @@ EXPLAIN = "explain"
 KEYS = ["a:1", "a:2", "b:1", "b:2", "c", "b:"]      # "b:" is the key of the templated function called with an empty field
 # registry: tag "ta" registered for key template "a:{x}" and, second, for the key "c"; templated tag "g:{x}" attached by a decorator to "b:{x}"; "u" is never registered
 REG = [("plain", "ta", "a:"), ("templ", "g:", "b:"), ("plain", "ta", "c")]      # "ta" is registered for two key templates
-RULE = ("histories (2-14 events) of tagged / untagged set and incr (direct cache.set(..., tags=) and through a decorated function whose tags= "
+RULE = ("histories (2-14 events) of tagged / untagged set and incr (by 1, 2, 0, -1, -5: counters reaching 0 included; direct cache.set(..., tags=) and through a decorated function whose tags= "
         "registers a templated tag), delete, delete_match, delete_tags (one tag, or 2-3 tags in one call, incl. a tag nobody carries) over 6 keys (one of them the templated "
         "function's key for an empty field), tags {ta (registered), g:<x> (templated, registered by decorator), u (never registered)}, TTL in {none, 0.25 s, 100 s}, advances 0-0.5 s; every key probed before and after each event; plus "
         "one family with 101-150 members in one tag (batches of 100). non-trivial: a delete_tags was issued on a tag with at least one live "
@@ -40,7 +40,7 @@ def gen_cases(rng, tier):
                 via = "decor" if k.startswith("b:") and tags == ["g:" + k[2:]] and ttl and rng.random() < 0.5 else "set"
                 ev.append([adv, ["set", k, rng.choice([1, 5]), ttl, tags, via]])
             elif r < 0.55:
-                ev.append([adv, ["incr", k, ttl, [t for t in TAGS_FOR[k] if rng.random() < 0.5]]])
+                ev.append([adv, ["incr", k, ttl, [t for t in TAGS_FOR[k] if rng.random() < 0.5], rng.choice([1, 1, 1, -1, -1, 0, 2])]])
             elif r < 0.68: ev.append([adv, ["del", k]])
             elif r < 0.74: ev.append([adv, ["delp", rng.choice(["a:", "b:", "c"])]])
             elif r < 0.92: ev.append([adv, ["dtags", rng.choice(ALLTAGS)]])
@@ -52,7 +52,7 @@ def gen_cases(rng, tier):
         t = rng.choice(TAGS_FOR[k])
         ev = [[0, [rng.choice(["set", "set", "incr"]), k] + ([rng.choice([1, 5]), rng.choice([0, 4, 1600]), [t], "set"] if True else [])]]
         if ev[0][1][0] == "incr":
-            ev[0][1] = ["incr", k, rng.choice([0, 4, 1600]), [t]]
+            ev[0][1] = ["incr", k, rng.choice([0, 4, 1600]), [t], rng.choice([1, 1, 0, -1])]
         other = rng.choice([x for x in KEYS if x != k])
         if rng.random() < 0.5:
             ev.append([0, ["set", other, 1, rng.choice([0, 1600]), [x for x in TAGS_FOR[other] if rng.random() < 0.5], "set"]])
@@ -64,7 +64,7 @@ def gen_cases(rng, tier):
         rc = rng.choice(["untagged", "same", "incr_tagged", "incr_untagged", "none", "extend", "extend"])
         if rc == "untagged": ev.append([0, ["set", k, 5, rng.choice([0, 1600]), [], "set"]])
         elif rc == "same": ev.append([0, ["set", k, 5, rng.choice([0, 1600]), [t], "set"]])
-        elif rc == "incr_tagged": ev.append([0, ["incr", k, 0, [t]]])
+        elif rc == "incr_tagged": ev.append([0, ["incr", k, 0, [t], rng.choice([1, -1, -1, 0, -5])]])     # a counter coming down to 0 is still a tagged write
         elif rc == "incr_untagged": ev.append([0, ["incr", k, 0, []]])
         elif rc == "extend":        # the same key written again under the same tag with a longer life, then time passes beyond the first deadline
             ev = [[0, ["set", k, 1, 4, [t], "set"]], [2, ["set", k, 5, 1600, [t], "set"]], [6, ["set", other, 5, 0, [], "set"]]]
@@ -109,7 +109,7 @@ def run_impl(case):
                     else:
                         await cache.set(k, v, expire=ttl * TICK if ttl else None, tags=tags)
                 elif op == "incr":
-                    await cache.incr(e[1], expire=e[2] * TICK if e[2] else None, tags=e[3])
+                    await cache.incr(e[1], e[4] if len(e) > 4 else 1, expire=e[2] * TICK if e[2] else None, tags=e[3])
                 elif op == "del": await cache.delete(e[1])
                 elif op == "delp": await cache.delete_match(e[1] + "*")
                 elif op == "dtags": await cache.delete_tags(*([e[1]] if isinstance(e[1], str) else e[1]))
@@ -131,7 +131,7 @@ def to_coq(case, obs):
     for (adv, e), (t, before, after) in zip(case["events"], obs["steps"]):
         op = e[0]
         if op == "set": ev = C("One", C("TSet", S(e[1]), val_to_coq(e[2]), Z(e[3]), [S(x) for x in e[4]]))
-        elif op == "incr": ev = C("One", C("TIncr", S(e[1]), Z(e[2]), [S(x) for x in e[3]]))
+        elif op == "incr": ev = C("One", C("TIncr", S(e[1]), Z(e[4] if len(e) > 4 else 1), Z(e[2]), [S(x) for x in e[3]]))
         elif op == "del": ev = C("One", C("TDel", S(e[1])))
         elif op == "delp": ev = C("One", C("TDelPrefix", S(e[1])))
         elif isinstance(e[1], str): ev = C("One", C("TDeleteTags", S(e[1])))
